@@ -70,6 +70,9 @@ struct Cell {
     variant: &'static str,
     role: Role,
     op: Op,
+    /// boundary / degenerate payload (zero amounts, empty lists, no-op updates): the role holder's call
+    /// need not succeed, but no other sender may ever get Ok
+    boundary: bool,
 }
 
 fn cells(w: &World, s: &Snap, rng: &mut Rng) -> Vec<Cell> {
@@ -90,13 +93,13 @@ fn cells(w: &World, s: &Snap, rng: &mut Rng) -> Vec<Cell> {
     let mut c: Vec<Cell> = vec![];
     let small = (s.vamms[v0].q / 10_000).max(10);
     let vop = |msg: vm::ExecuteMsg| Op::Vamm { sender: x("?"), vamm: v0, msg };
-    c.push(Cell { contract: "vamm", variant: "swap_input", role: Role::VammEngine, op: vop(vm::ExecuteMsg::SwapInput { direction: dir(true), quote_asset_amount: u(small), base_asset_limit: u(0), can_go_over_fluctuation: true }) });
-    c.push(Cell { contract: "vamm", variant: "swap_output", role: Role::VammEngine, op: vop(vm::ExecuteMsg::SwapOutput { direction: dir(true), base_asset_amount: u((s.vamms[v0].b / 10_000).max(10)), quote_asset_limit: u(0) }) });
-    c.push(Cell { contract: "vamm", variant: "settle_funding", role: Role::VammEngine, op: vop(vm::ExecuteMsg::SettleFunding {}) });
+    c.push(Cell { contract: "vamm", variant: "swap_input", boundary: false, role: Role::VammEngine, op: vop(vm::ExecuteMsg::SwapInput { direction: dir(true), quote_asset_amount: u(small), base_asset_limit: u(0), can_go_over_fluctuation: true }) });
+    c.push(Cell { contract: "vamm", variant: "swap_output", boundary: false, role: Role::VammEngine, op: vop(vm::ExecuteMsg::SwapOutput { direction: dir(true), base_asset_amount: u((s.vamms[v0].b / 10_000).max(10)), quote_asset_limit: u(0) }) });
+    c.push(Cell { contract: "vamm", variant: "settle_funding", boundary: false, role: Role::VammEngine, op: vop(vm::ExecuteMsg::SettleFunding {}) });
     c.push(Cell {
         contract: "vamm",
         variant: "update_config",
-        role: Role::VammOwner,
+        boundary: false, role: Role::VammOwner,
         op: vop(vm::ExecuteMsg::UpdateConfig {
             base_asset_holding_cap: if rng.chance(1, 2) { Some(u(rng.u128_range(0, 1000))) } else { None },
             open_interest_notional_cap: None,
@@ -109,13 +112,13 @@ fn cells(w: &World, s: &Snap, rng: &mut Rng) -> Vec<Cell> {
             spot_price_twap_interval: None,
         }),
     });
-    c.push(Cell { contract: "vamm", variant: "update_owner", role: Role::VammOwner, op: vop(vm::ExecuteMsg::UpdateOwner { owner: x("stranger") }) });
-    c.push(Cell { contract: "vamm", variant: "set_open", role: Role::VammOwnerOrInsurance, op: vop(vm::ExecuteMsg::SetOpen { open: !s.vamms[v0].open }) });
+    c.push(Cell { contract: "vamm", variant: "update_owner", boundary: false, role: Role::VammOwner, op: vop(vm::ExecuteMsg::UpdateOwner { owner: x("stranger") }) });
+    c.push(Cell { contract: "vamm", variant: "set_open", boundary: false, role: Role::VammOwnerOrInsurance, op: vop(vm::ExecuteMsg::SetOpen { open: !s.vamms[v0].open }) });
     let eop = |msg: eng::ExecuteMsg| Op::Engine { sender: x("?"), msg, funds: 0 };
     c.push(Cell {
         contract: "engine",
         variant: "update_config",
-        role: Role::EngOwner,
+        boundary: false, role: Role::EngOwner,
         op: eop(eng::ExecuteMsg::UpdateConfig {
             owner: if rng.chance(1, 3) { Some(x("stranger")) } else { None },
             insurance_fund: None,
@@ -126,38 +129,67 @@ fn cells(w: &World, s: &Snap, rng: &mut Rng) -> Vec<Cell> {
             liquidation_fee: Some(u(rng.u128_range(0, d / 10))),
         }),
     });
-    c.push(Cell { contract: "engine", variant: "update_pauser", role: Role::Pauser, op: eop(eng::ExecuteMsg::UpdatePauser { pauser: x("stranger") }) });
-    c.push(Cell { contract: "engine", variant: "add_whitelist", role: Role::Pauser, op: eop(eng::ExecuteMsg::AddWhitelist { address: x("stranger") }) });
+    c.push(Cell { contract: "engine", variant: "update_pauser", boundary: false, role: Role::Pauser, op: eop(eng::ExecuteMsg::UpdatePauser { pauser: x("stranger") }) });
+    c.push(Cell { contract: "engine", variant: "add_whitelist", boundary: false, role: Role::Pauser, op: eop(eng::ExecuteMsg::AddWhitelist { address: x("stranger") }) });
     if let Some(wl) = s.eng.whitelist.first() {
-        c.push(Cell { contract: "engine", variant: "remove_whitelist", role: Role::Pauser, op: eop(eng::ExecuteMsg::RemoveWhitelist { address: wl.clone() }) });
+        c.push(Cell { contract: "engine", variant: "remove_whitelist", boundary: false, role: Role::Pauser, op: eop(eng::ExecuteMsg::RemoveWhitelist { address: wl.clone() }) });
     }
-    c.push(Cell { contract: "engine", variant: "set_pause", role: Role::Pauser, op: eop(eng::ExecuteMsg::SetPause { pause: !s.eng.paused }) });
+    c.push(Cell { contract: "engine", variant: "set_pause", boundary: false, role: Role::Pauser, op: eop(eng::ExecuteMsg::SetPause { pause: !s.eng.paused }) });
     let iop = |msg: ins::ExecuteMsg| Op::Insurance { sender: x("?"), msg };
-    c.push(Cell { contract: "insurance", variant: "update_owner", role: Role::InsOwner, op: iop(ins::ExecuteMsg::UpdateOwner { owner: x("stranger") }) });
+    c.push(Cell { contract: "insurance", variant: "update_owner", boundary: false, role: Role::InsOwner, op: iop(ins::ExecuteMsg::UpdateOwner { owner: x("stranger") }) });
     if let Some(vi) = unregistered.first() {
         if registered.len() < 3 {
-            c.push(Cell { contract: "insurance", variant: "add_vamm", role: Role::InsOwner, op: iop(ins::ExecuteMsg::AddVamm { vamm: w.vamms[*vi].to_string() }) });
+            c.push(Cell { contract: "insurance", variant: "add_vamm", boundary: false, role: Role::InsOwner, op: iop(ins::ExecuteMsg::AddVamm { vamm: w.vamms[*vi].to_string() }) });
         }
     }
     if let Some(vi) = registered.last() {
-        c.push(Cell { contract: "insurance", variant: "remove_vamm", role: Role::InsOwner, op: iop(ins::ExecuteMsg::RemoveVamm { vamm: w.vamms[*vi].to_string() }) });
+        c.push(Cell { contract: "insurance", variant: "remove_vamm", boundary: false, role: Role::InsOwner, op: iop(ins::ExecuteMsg::RemoveVamm { vamm: w.vamms[*vi].to_string() }) });
     }
-    c.push(Cell { contract: "insurance", variant: "withdraw", role: Role::InsEngine, op: iop(ins::ExecuteMsg::Withdraw { token: token.clone(), amount: u(rng.u128_range(1, 1000)) }) });
-    c.push(Cell { contract: "insurance", variant: "shutdown_vamms", role: Role::InsOwner, op: iop(ins::ExecuteMsg::ShutdownVamms {}) });
+    c.push(Cell { contract: "insurance", variant: "withdraw", boundary: false, role: Role::InsEngine, op: iop(ins::ExecuteMsg::Withdraw { token: token.clone(), amount: u(rng.u128_range(1, 1000)) }) });
+    c.push(Cell { contract: "insurance", variant: "shutdown_vamms", boundary: false, role: Role::InsOwner, op: iop(ins::ExecuteMsg::ShutdownVamms {}) });
     let fop = |msg: fp::ExecuteMsg| Op::FeePool { sender: x("?"), msg };
-    c.push(Cell { contract: "fee_pool", variant: "update_owner", role: Role::FeeOwner, op: fop(fp::ExecuteMsg::UpdateOwner { owner: x("stranger") }) });
-    c.push(Cell { contract: "fee_pool", variant: "add_token", role: Role::FeeOwner, op: fop(fp::ExecuteMsg::AddToken { token: if collateral == "ujunox" { x("uwasm") } else { x("ujunox") } }) });
-    c.push(Cell { contract: "fee_pool", variant: "remove_token", role: Role::FeeOwner, op: fop(fp::ExecuteMsg::RemoveToken { token: collateral.clone() }) });
-    c.push(Cell { contract: "fee_pool", variant: "send_token", role: Role::FeeOwner, op: fop(fp::ExecuteMsg::SendToken { token: collateral.clone(), amount: u(rng.u128_range(1, 500)), recipient: x("stranger") }) });
+    c.push(Cell { contract: "fee_pool", variant: "update_owner", boundary: false, role: Role::FeeOwner, op: fop(fp::ExecuteMsg::UpdateOwner { owner: x("stranger") }) });
+    c.push(Cell { contract: "fee_pool", variant: "add_token", boundary: false, role: Role::FeeOwner, op: fop(fp::ExecuteMsg::AddToken { token: if collateral == "ujunox" { x("uwasm") } else { x("ujunox") } }) });
+    c.push(Cell { contract: "fee_pool", variant: "remove_token", boundary: false, role: Role::FeeOwner, op: fop(fp::ExecuteMsg::RemoveToken { token: collateral.clone() }) });
+    c.push(Cell { contract: "fee_pool", variant: "send_token", boundary: false, role: Role::FeeOwner, op: fop(fp::ExecuteMsg::SendToken { token: collateral.clone(), amount: u(rng.u128_range(1, 500)), recipient: x("stranger") }) });
     let pop = |msg: pf::ExecuteMsg| Op::Feed { sender: x("?"), msg };
-    c.push(Cell { contract: "pricefeed", variant: "append_price", role: Role::FeedOwner, op: pop(pf::ExecuteMsg::AppendPrice { key: KEY.into(), price: u(rng.u128_range(1, 100 * d)), timestamp: now }) });
+    c.push(Cell { contract: "pricefeed", variant: "append_price", boundary: false, role: Role::FeedOwner, op: pop(pf::ExecuteMsg::AppendPrice { key: KEY.into(), price: u(rng.u128_range(1, 100 * d)), timestamp: now }) });
     c.push(Cell {
         contract: "pricefeed",
         variant: "append_multiple_price",
-        role: Role::FeedOwner,
+        boundary: false, role: Role::FeedOwner,
         op: pop(pf::ExecuteMsg::AppendMultiplePrice { key: KEY.into(), prices: vec![u(5 * d), u(6 * d)], timestamps: vec![now, now] }),
     });
-    c.push(Cell { contract: "pricefeed", variant: "update_owner", role: Role::FeedOwner, op: pop(pf::ExecuteMsg::UpdateOwner { owner: x("stranger") }) });
+    c.push(Cell { contract: "pricefeed", variant: "update_owner", boundary: false, role: Role::FeedOwner, op: pop(pf::ExecuteMsg::UpdateOwner { owner: x("stranger") }) });
+    // degenerate payloads of every privileged variant
+    let b = |contract: &'static str, variant: &'static str, role: Role, op: Op| Cell { contract, variant, role, op, boundary: true };
+    for add in [true, false] {
+        c.push(b("vamm", "swap_input(0)", Role::VammEngine, vop(vm::ExecuteMsg::SwapInput { direction: dir(add), quote_asset_amount: u(0), base_asset_limit: u(0), can_go_over_fluctuation: add })));
+        c.push(b("vamm", "swap_output(0)", Role::VammEngine, vop(vm::ExecuteMsg::SwapOutput { direction: dir(add), base_asset_amount: u(0), quote_asset_limit: u(0) })));
+        c.push(b("vamm", "swap_input(1)", Role::VammEngine, vop(vm::ExecuteMsg::SwapInput { direction: dir(add), quote_asset_amount: u(1), base_asset_limit: u(0), can_go_over_fluctuation: true })));
+    }
+    c.push(b("vamm", "update_config(none)", Role::VammOwner, vop(vm::ExecuteMsg::UpdateConfig { base_asset_holding_cap: None, open_interest_notional_cap: None, toll_ratio: None, spread_ratio: None, fluctuation_limit_ratio: None, margin_engine: None, insurance_fund: None, pricefeed: None, spot_price_twap_interval: None })));
+    c.push(b("vamm", "update_config(invalid)", Role::VammOwner, vop(vm::ExecuteMsg::UpdateConfig { base_asset_holding_cap: None, open_interest_notional_cap: None, toll_ratio: Some(u(d + 1)), spread_ratio: None, fluctuation_limit_ratio: None, margin_engine: None, insurance_fund: None, pricefeed: None, spot_price_twap_interval: Some(1) })));
+    c.push(b("vamm", "set_open(same)", Role::VammOwnerOrInsurance, vop(vm::ExecuteMsg::SetOpen { open: s.vamms[v0].open })));
+    c.push(b("vamm", "update_owner(self)", Role::VammOwner, vop(vm::ExecuteMsg::UpdateOwner { owner: s.vamms[v0].owner.clone() })));
+    c.push(b("engine", "update_config(none)", Role::EngOwner, eop(eng::ExecuteMsg::UpdateConfig { owner: None, insurance_fund: None, fee_pool: None, initial_margin_ratio: None, maintenance_margin_ratio: None, partial_liquidation_ratio: None, liquidation_fee: None })));
+    c.push(b("engine", "update_config(invalid)", Role::EngOwner, eop(eng::ExecuteMsg::UpdateConfig { owner: None, insurance_fund: None, fee_pool: None, initial_margin_ratio: Some(u(d + 1)), maintenance_margin_ratio: None, partial_liquidation_ratio: None, liquidation_fee: None })));
+    c.push(b("engine", "set_pause(same)", Role::Pauser, eop(eng::ExecuteMsg::SetPause { pause: s.eng.paused })));
+    c.push(b("engine", "remove_whitelist(absent)", Role::Pauser, eop(eng::ExecuteMsg::RemoveWhitelist { address: x("stranger") })));
+    c.push(b("engine", "add_whitelist(present)", Role::Pauser, eop(eng::ExecuteMsg::AddWhitelist { address: s.eng.whitelist.first().cloned().unwrap_or_else(|| x("dave")) })));
+    c.push(b("insurance", "withdraw(0)", Role::InsEngine, iop(ins::ExecuteMsg::Withdraw { token: token.clone(), amount: u(0) })));
+    c.push(b("insurance", "withdraw(all+1)", Role::InsEngine, iop(ins::ExecuteMsg::Withdraw { token: token.clone(), amount: u(s.bal(w.insurance.as_str()) + 1) })));
+    c.push(b("insurance", "add_vamm(registered)", Role::InsOwner, iop(ins::ExecuteMsg::AddVamm { vamm: registered.first().map(|i| w.vamms[*i].to_string()).unwrap_or_else(|| x("alice")) })));
+    c.push(b("insurance", "remove_vamm(absent)", Role::InsOwner, iop(ins::ExecuteMsg::RemoveVamm { vamm: x("alice") })));
+    c.push(b("insurance", "add_vamm(not a vamm)", Role::InsOwner, iop(ins::ExecuteMsg::AddVamm { vamm: w.engine.to_string() })));
+    c.push(b("fee_pool", "send_token(0)", Role::FeeOwner, fop(fp::ExecuteMsg::SendToken { token: collateral.clone(), amount: u(0), recipient: x("stranger") })));
+    c.push(b("fee_pool", "send_token(all+1)", Role::FeeOwner, fop(fp::ExecuteMsg::SendToken { token: collateral.clone(), amount: u(s.bal(w.fee_pool.as_str()) + 1), recipient: x("stranger") })));
+    c.push(b("fee_pool", "send_token(unlisted)", Role::FeeOwner, fop(fp::ExecuteMsg::SendToken { token: x("ujunox"), amount: u(1), recipient: x("stranger") })));
+    c.push(b("fee_pool", "add_token(present)", Role::FeeOwner, fop(fp::ExecuteMsg::AddToken { token: collateral.clone() })));
+    c.push(b("fee_pool", "remove_token(absent)", Role::FeeOwner, fop(fp::ExecuteMsg::RemoveToken { token: x("ujunox") })));
+    c.push(b("pricefeed", "append_multiple_price(empty)", Role::FeedOwner, pop(pf::ExecuteMsg::AppendMultiplePrice { key: KEY.into(), prices: vec![], timestamps: vec![] })));
+    c.push(b("pricefeed", "append_multiple_price(mismatch)", Role::FeedOwner, pop(pf::ExecuteMsg::AppendMultiplePrice { key: KEY.into(), prices: vec![u(d)], timestamps: vec![] })));
+    c.push(b("pricefeed", "append_price(0)", Role::FeedOwner, pop(pf::ExecuteMsg::AppendPrice { key: "OTHER".into(), price: u(0), timestamp: 0 })));
     c
 }
 
@@ -228,7 +260,7 @@ fn matrix(w: &mut World, roles: &Roles, phase: &str, exes: &[String], rng: &mut 
                 rightful_ok = true;
             } else {
                 rightful_err = out.err_text();
-                if is_auth_err(&rightful_err) {
+                if is_auth_err(&rightful_err) && !cell.boundary {
                     r.violation(
                         "C09",
                         "R2-role-holder-refused",
@@ -239,13 +271,17 @@ fn matrix(w: &mut World, roles: &Roles, phase: &str, exes: &[String], rng: &mut 
                 }
             }
         }
-        if !rightful_ok {
+        if cell.boundary {
+            r.count("boundary-payload-cells");
+        } else if !rightful_ok {
             r.count("vacuous-cells(payload not accepted for the role holder)");
             r.count(&format!("vacuous:{}:{}", cell.contract, cell.variant));
             r.inconclusive(format!("cell {} {} vacuous in phase {}: {}", cell.contract, cell.variant, phase, rightful_err.chars().filter(|c| !c.is_ascii_digit()).collect::<String>()));
             continue;
         }
-        r.count(&format!("cell:{}:{}", cell.contract, cell.variant));
+        if !cell.boundary {
+            r.count(&format!("cell:{}:{}", cell.contract, cell.variant));
+        }
         // (2) every other sender must be refused and nothing may change
         let before = w.storage_digest();
         for (kind, addr) in &senders {
